@@ -348,9 +348,27 @@ func execFunc(spec string) (res engine.Result) {
 		code := slip.ReadString(src, w.scope)
 		return code.Eval(w.scope, nil)
 	})
-	judgeCall(&res, o, &realClassifier, sigPrefix, fmt.Sprintf("%s with %s", src, describeArgs(args)))
+	what := fmt.Sprintf("%s with %s", src, describeArgs(args))
+	judgeCall(&res, o, &realClassifier, sigPrefix, what)
+	// Did the call poison the interpreter? A plain type error must still be a plain type error.
+	slip.CurrentPackage = &slip.UserPkg
+	probe := observe(func() slip.Object {
+		s := slip.NewScope()
+		return slip.ReadString("(car 5)", s).Eval(s, nil)
+	})
+	if fc := realClassifier.classify(probe); fc != "" || probe.kind != "condition" || probe.class != "type-error" {
+		res.Hit("poisoned")
+		res.Fail(fmt.Sprintf("%s kind=poisons-interpreter then=%s at=%s", sigPrefix, fc, probe.site),
+			what+" => "+o.describe()+"; AFTERWARDS (car 5) in a fresh scope => "+probe.describe())
+		tainted = true
+	}
 	return
 }
+
+// tainted: a case left the interpreter of this process broken (reported above);
+// later failures of this process will not reproduce in a fresh process and are
+// dropped by the engine.
+var tainted bool
 
 func describeArgs(args []string) string {
 	if len(args) == 0 {
